@@ -27,6 +27,7 @@ type Plan struct {
 	Registry  *RegistryPlan   `json:"registry,omitempty"`
 	Pair      *PairPlan       `json:"pair,omitempty"`
 	MSE       *MSEPlan        `json:"mse,omitempty"`
+	Meta      *MetaPlan       `json:"meta,omitempty"`
 	Generic   json.RawMessage `json:"generic,omitempty"`
 }
 
